@@ -18,10 +18,18 @@ use std::net::{TcpListener, TcpStream};
 use std::path::{Path, PathBuf};
 use std::rc::Rc;
 use std::sync::atomic::{AtomicBool, Ordering};
+#[cfg(not(wilfred_garden_verif))]
 use std::sync::mpsc::{self, Receiver, RecvTimeoutError, Sender};
 use std::sync::{Arc, Mutex, Weak};
 use std::time::{Duration, Instant};
+#[cfg(wilfred_garden_verif)]
+use std::fs;
+#[cfg(not(wilfred_garden_verif))]
 use std::{fs, thread};
+#[cfg(wilfred_garden_verif)]
+use verif_rt::sched::mpsc::{self, Receiver, RecvTimeoutError, Sender};
+#[cfg(wilfred_garden_verif)]
+use verif_rt::sched::thread;
 
 use serde_bencode::value::Value;
 use tracing::{debug, error, info, warn};
@@ -329,6 +337,8 @@ fn flush_output_buffer(
     response_tx: &Sender<Value>,
     base_msg: &HashMap<Vec<u8>, Value>,
 ) {
+    #[cfg(wilfred_garden_verif)]
+    verif_rt::sched::point("flush.lock");
     let captured = std::mem::take(&mut *buf.lock().expect("output buffer poisoned"));
     if !captured.is_empty() {
         let mut msg = base_msg.clone();
@@ -769,6 +779,8 @@ impl Connection {
         // Wake any in-progress eval so the worker shuts down
         // promptly once we drop the request channel.
         if let Some(s) = self.sessions.get(id) {
+            #[cfg(wilfred_garden_verif)]
+            verif_rt::sched::point("close.store");
             s.interrupted.store(true, Ordering::SeqCst);
         }
         self.sessions.remove(id).is_some()
@@ -849,6 +861,8 @@ fn session_worker(
     let mut env = Env::new(id_gen, vfs);
 
     while let Ok(req) = request_rx.recv() {
+        #[cfg(wilfred_garden_verif)]
+        verif_access::on_dequeue(&req);
         // Clear any stray interrupt set while the session was idle.
         interrupted.store(false, Ordering::SeqCst);
 
@@ -1215,6 +1229,8 @@ fn handle_message(conn: &mut Connection, request: &HashMap<Vec<u8>, Value>) {
             let session_id = dict_get(request, "session").and_then(as_str);
             match session_id.and_then(|s| conn.sessions.get(s)) {
                 Some(s) => {
+                    #[cfg(wilfred_garden_verif)]
+                    verif_rt::sched::point("interrupt.store");
                     s.interrupted.store(true, Ordering::SeqCst);
                     let mut msg = base;
                     msg.insert(b"status".to_vec(), Value::List(vec![bstr("done")]));
@@ -1548,6 +1564,107 @@ pub(crate) fn reftest_nrepl(src: &str) {
     for response in responses {
         let response_json = normalize_for_reftest(bencode_to_json(&response));
         println!("{}", serde_json::to_string_pretty(&response_json).unwrap());
+    }
+}
+
+/// Entry points for the verification hooks.
+#[cfg(wilfred_garden_verif)]
+pub(crate) mod verif_access {
+    use super::*;
+    use verif_rt::sched;
+
+    fn request_id(req: &SessionRequest) -> String {
+        let base = match req {
+            SessionRequest::Eval { base_msg, .. } => base_msg,
+            SessionRequest::LoadFile { base_msg, .. } => base_msg,
+            SessionRequest::Completions { base_msg, .. } => base_msg,
+            SessionRequest::Lookup { base_msg, .. } => base_msg,
+        };
+        dict_get(base, "id")
+            .and_then(as_str)
+            .unwrap_or("")
+            .to_owned()
+    }
+
+    /// The worker has taken `req` off its queue and is about to
+    /// clear the interrupt flag.
+    pub(crate) fn on_dequeue(req: &SessionRequest) {
+        sched::note(format!("dequeued {}", request_id(req)));
+        sched::point("worker.reset");
+    }
+
+    /// Run a client script against an in-memory connection under the
+    /// controlled scheduler. `input`: `{"script": [...], "prefix":
+    /// [...], "horizon": n}`; script actions: `{"send": request}`,
+    /// `{"await": {"counter": name, "n": k}}`, `{"drop_conn": true}`.
+    pub(crate) fn controlled_run(input: &serde_json::Value) -> serde_json::Value {
+        use serde_json::json;
+
+        let script: Vec<serde_json::Value> = input["script"].as_array().cloned().unwrap_or_default();
+        let prefix: Vec<usize> = input["prefix"]
+            .as_array()
+            .map(|a| a.iter().filter_map(|x| x.as_u64().map(|n| n as usize)).collect())
+            .unwrap_or_default();
+        let horizon = input["horizon"].as_u64().unwrap_or(400) as usize;
+
+        let slot: Arc<Mutex<Option<Receiver<Value>>>> = Arc::new(Mutex::new(None));
+        let slot2 = Arc::clone(&slot);
+
+        let result = sched::run_controlled(prefix, horizon, move || {
+            let (tx, rx) = mpsc::channel::<Value>();
+            *slot2.lock().unwrap() = Some(rx);
+            let mut conn = Connection::new(tx);
+            let mut dropped = false;
+            for action in script {
+                if let Some(req) = action.get("send") {
+                    sched::point("client.send");
+                    if let Value::Dict(d) = json_to_bencode(req.clone()) {
+                        handle_message(&mut conn, &d);
+                    }
+                } else if let Some(aw) = action.get("await") {
+                    let counter = aw["counter"].as_str().unwrap_or("");
+                    let n = aw["n"].as_u64().unwrap_or(1);
+                    sched::wait_counter("client.await", counter, n);
+                } else if action.get("drop_conn").is_some() {
+                    // What `serve_connection` does when the client goes away.
+                    sched::point("client.drop");
+                    for s in conn.sessions.values() {
+                        sched::point("drop.store");
+                        s.interrupted.store(true, Ordering::SeqCst);
+                    }
+                    dropped = true;
+                    break;
+                }
+            }
+            if dropped {
+                drop(conn);
+            } else {
+                // The connection stays open.
+                std::mem::forget(conn);
+            }
+        });
+
+        let responses: Vec<serde_json::Value> = slot
+            .lock()
+            .unwrap()
+            .as_ref()
+            .map(|rx| rx.drain().iter().map(bencode_to_json).collect())
+            .unwrap_or_default();
+
+        json!({
+            "end": result.end,
+            "tasks": result.tasks,
+            "trace": result.trace.iter().map(|p| json!({
+                "by": p.by,
+                "label": p.label,
+                "alts": p.alts.iter().map(|(t, l, to)| json!([t, l, to])).collect::<Vec<_>>(),
+                "choice": p.choice,
+                "by_enabled": p.by_enabled,
+                "spinning": p.spinning,
+            })).collect::<Vec<_>>(),
+            "notes": result.notes.iter().map(|(at, t, s)| json!([at, t, s])).collect::<Vec<_>>(),
+            "responses": responses,
+        })
     }
 }
 
